@@ -16,7 +16,7 @@ import NetaddrVerif.Lemmas.C15LBits
 import NetaddrVerif.Lemmas.C15LB85
 import NetaddrVerif.Lemmas.C15LArpa
 namespace NV.C15
-open NV NV.Codec NV.Py
+open NV NV.Codec NV.Py NV.PyL
 
 /-! ## words -/
 
